@@ -113,7 +113,7 @@ def main():
             na.append({"property_id": pid, "reason": NOT_YET.get(pid, "check not built yet in this round of work (planned, see DESIGN.md §9); not a claim that the technique cannot apply")})
     man = {
         "version": 1,
-        "setup_cmd": "cd lean && lake build FastorModel fmodel",
+        "setup_cmd": "python3 tools/regen.py && cd lean && lake build FastorModel fmodel",
         "hooks": {
             "guard": "FASTOR_VERIF",
             "enable": "harness translation units are compiled with -DFASTOR_VERIF -I/repo (see vlib/core.py cxx_cmd)",
